@@ -403,7 +403,8 @@ def _db_ceil_expr(dbmodel, expression):
 
 def _db_int_divide_expr(dbmodel, expression):
     # example of a derived expression
-    ratio = (expression.args[0] / expression.args[1]).floor()
+    # (the float division %/%: SQL's / between two integers has already truncated towards zero, -7 / 2 = -3)
+    ratio = (expression.args[0].float_divide(expression.args[1])).floor()
     return dbmodel.expr_to_sql(ratio, want_inline_parens=False)
 
 
